@@ -28,7 +28,7 @@ use rustc_middle::ty::{self, Instance, TyCtxt, TypingEnv};
 use rustc_span::{ExpnKind, Span};
 use std::fmt::Write as _;
 
-const DRIVER_VERSION: &str = "factdrv-3";
+const DRIVER_VERSION: &str = "factdrv-4";
 
 // ---------------------------------------------------------------- JSON helpers
 fn js(s: &str) -> String {
@@ -577,6 +577,29 @@ impl<'tcx> Cx<'tcx> {
         o.end()
     }
 
+    fn patexpr(&self, pe: &hir::PatExpr<'tcx>) -> String {
+        let mut o = O::new();
+        match &pe.kind {
+            hir::PatExprKind::Lit { lit, negated } => {
+                use rustc_ast::LitKind as L;
+                o = o.s("k", "lit").b("neg", *negated);
+                match &lit.node {
+                    L::Str(s, _) => o = o.s("lk", "str").s("v", s.as_str()),
+                    L::Int(n, _) => o = o.s("lk", "int").s("v", &format!("{}", n.get())),
+                    L::Float(s, _) => o = o.s("lk", "float").s("v", s.as_str()),
+                    L::Bool(b) => o = o.s("lk", "bool").s("v", if *b { "true" } else { "false" }),
+                    other => o = o.s("lk", "other").s("v", &format!("{:?}", other)),
+                }
+            }
+            hir::PatExprKind::Path(qp) => {
+                o = o.s("k", "path");
+                o = self.qres(qp, pe.hir_id, o);
+            }
+            _ => o = o.s("k", "other").s("dbg", "constblock"),
+        }
+        o.end()
+    }
+
     fn pat(&self, p: &hir::Pat<'tcx>) -> String {
         use hir::PatKind as P;
         let tcx = self.tcx;
@@ -623,24 +646,17 @@ impl<'tcx> Cx<'tcx> {
                 }
                 o = o.r("after", arr(after.iter().map(|x| self.pat(x)).collect()));
             }
-            P::Expr(pe) => match &pe.kind {
-                hir::PatExprKind::Lit { lit, negated } => {
-                    use rustc_ast::LitKind as L;
-                    o = o.s("k", "lit").b("neg", *negated);
-                    match &lit.node {
-                        L::Str(s, _) => o = o.s("lk", "str").s("v", s.as_str()),
-                        L::Int(n, _) => o = o.s("lk", "int").s("v", &format!("{}", n.get())),
-                        L::Float(s, _) => o = o.s("lk", "float").s("v", s.as_str()),
-                        L::Bool(b) => o = o.s("lk", "bool").s("v", if *b { "true" } else { "false" }),
-                        other => o = o.s("lk", "other").s("v", &format!("{:?}", other)),
-                    }
+            P::Expr(pe) => return self.patexpr(pe),
+            P::Range(lo, hi, end) => {
+                // `a..=b`, `a..`, `..=b` on a scrutinee: the bounds are pattern expressions (literals or paths)
+                o = o.s("k", "range").b("incl", matches!(end, hir::RangeEnd::Included));
+                if let Some(l) = lo {
+                    o = o.r("lo", self.patexpr(l));
                 }
-                hir::PatExprKind::Path(qp) => {
-                    o = o.s("k", "path");
-                    o = self.qres(qp, pe.hir_id, o);
+                if let Some(h) = hi {
+                    o = o.r("hi", self.patexpr(h));
                 }
-                _ => o = o.s("k", "other").s("dbg", "constblock"),
-            },
+            }
             other => {
                 let d = format!("{:?}", other);
                 let d: String = d.chars().take(60).collect();
